@@ -1,3 +1,195 @@
-(* App/WritersProofs.v — theorems about App/Writers.v (under construction) *)
+(* App/WritersProofs.v — P1 encode_parse_round_trip for the modelled writers (App/Writers.v): what
+   HeaderWriter writes for a request is parsed by parse_fragment / headers_of into exactly the header,
+   the object headers, the indices and the object bytes that were written, every byte consumed. *)
 From Dnp3V Require Import App.Writers App.GrammarProofs.
 Open Scope N_scope.
+
+(* the object headers a written header must be decoded to *)
+Definition aw_headers (h : awheader) : list aobj_header :=
+  match h with
+  | WAll g v => [amk g v HAll PyNone]
+  | WRange8 g v a b => [amk g v (HRange8 a b) PyNone]
+  | WRange16 g v a b => [amk g v (HRange16 a b) PyNone]
+  | WCount8 g v c => [amk g v (HCount8 c) PyNone]
+  | WCount16 g v c => [amk g v (HCount16 c) PyNone]
+  | WClasses c1 c2 c3 c0 =>
+      (if c1 then [amk 60 2 HAll PyNone] else []) ++ (if c2 then [amk 60 3 HAll PyNone] else [])
+      ++ (if c3 then [amk 60 4 HAll PyNone] else []) ++ (if c0 then [amk 60 1 HAll PyNone] else [])
+  | WPrefixed g v psize items =>
+      let n := N.of_nat (length items) in
+      [amk g v (if psize =? 1 then HPrefix8 n else HPrefix16 n)
+           (PyFixedPrefix psize n (concat (map (fun it => ale_bytes (N.to_nat psize) (fst it) ++ snd it) items)))]
+  | WCountOfOne g v obj => [amk g v (HCount8 1) (PyFixedCount 1 obj)]
+  | WClearRestart => [amk 80 1 (HRange8 7 7) (PyBits 7 1 [0])]
+  end.
+
+(* side conditions under which the builders produce a decodable request: the variation may be used with
+   the qualifier for this function code (range and count scans carry no object data, so the variation
+   must be one that takes none), ranges are ordered, numbers fit their fields, objects have their SIZE *)
+Definition aw_ok (o : aopts) (fc : N) (h : awheader) : Prop :=
+  match h with
+  | WAll g v => g < 256 /\ v < 256 /\ alookup g v = true /\ aqkind qt_all g v <> None
+  | WRange8 g v a b =>
+      g < 256 /\ v < 256 /\ alookup g v = true /\ a <= b /\ b < 256 /\ aranged_wf o fc g v a (b - a + 1) PyNone
+  | WRange16 g v a b =>
+      g < 256 /\ v < 256 /\ alookup g v = true /\ a <= b /\ b < 65536 /\ aranged_wf o fc g v a (b - a + 1) PyNone
+  | WCount8 g v c => g < 256 /\ v < 256 /\ alookup g v = true /\ c < 256 /\ acount_wf g v c PyNone
+  | WCount16 g v c => g < 256 /\ v < 256 /\ alookup g v = true /\ c < 65536 /\ acount_wf g v c PyNone
+  | WClasses _ _ _ _ => True
+  | WPrefixed g v psize items =>
+      g < 256 /\ v < 256 /\ alookup g v = true /\ (psize = 1 \/ psize = 2)
+      /\ N.of_nat (length items) <= aw_max_count psize
+      /\ aqkind qt_prefix g v = Some DFixed
+      /\ exists fi, afixed g v = Some fi
+         /\ Forall (fun it => fst it < 256 ^ psize /\ abytes_ok (snd it) /\ N.of_nat (length (snd it)) = fi_size fi) items
+  | WCountOfOne g v obj =>
+      g < 256 /\ v < 256 /\ alookup g v = true /\ aqkind qt_count g v = Some DFixed
+      /\ exists fi, afixed g v = Some fi /\ abytes_ok obj /\ N.of_nat (length obj) = fi_size fi
+  | WClearRestart => (fc =? fc_read) = false
+  end.
+
+(* T::write of T::read of a well-sized object is the object *)
+Lemma arewrite_id g v fi obj : afixed g v = Some fi -> abytes_ok obj -> N.of_nat (length obj) = fi_size fi ->
+  arewrite g v obj = obj.
+Proof.
+  intros Hf Hb Hlen. unfold arewrite. rewrite Hf. destruct (afixed_in _ _ _ Hf) as [Hin _].
+  destruct (aread_fields_enough (awidths fi) obj) as [xs [r Hr]].
+  { rewrite <- (size_is_sum_of_fields fi Hin). lia. }
+  rewrite Hr. destruct (aread_fields_sound _ _ _ _ Hr Hb) as [E [Hw _]].
+  rewrite (awidths_same fi Hin).
+  assert (Hr0 : r = []).
+  { rewrite E in Hlen. rewrite app_length in Hlen. rewrite (size_is_sum_of_fields fi Hin) in Hlen.
+    destruct r; [reflexivity|cbn [length] in Hlen; lia]. }
+  subst r. rewrite app_nil_r in E. symmetry. exact E.
+Qed.
+
+Lemma alo8_lt x : lo8 x < 256. Proof. apply lo8_bound. Qed.
+Lemma ahi8_lt x : hi8 x < 256. Proof. apply hi8_bound. Qed.
+
+Ltac abytes := repeat (apply Forall_cons || apply Forall_nil || apply alo8_lt || apply ahi8_lt || lia || assumption).
+
+Lemma aw_items_data g v psize fi items : afixed g v = Some fi -> (psize = 1 \/ psize = 2) ->
+  Forall (fun it => fst it < 256 ^ psize /\ abytes_ok (snd it) /\ N.of_nat (length (snd it)) = fi_size fi) items ->
+  concat (map (aw_item g v psize) items) = concat (map (fun it => ale_bytes (N.to_nat psize) (fst it) ++ snd it) items)
+  /\ N.of_nat (length (concat (map (fun it => ale_bytes (N.to_nat psize) (fst it) ++ snd it) items)))
+     = (psize + fi_size fi) * N.of_nat (length items)
+  /\ abytes_ok (concat (map (fun it => ale_bytes (N.to_nat psize) (fst it) ++ snd it) items)).
+Proof.
+  intros Hf Hps HF. induction HF as [|it items [Hi [Hb Hl]] HF IH]; cbn [map concat length].
+  - split; [reflexivity|]. split; [lia|constructor].
+  - destruct IH as [E1 [E2 E3]]. unfold aw_item at 1. rewrite (arewrite_id g v fi (snd it) Hf Hb Hl). rewrite E1.
+    split; [reflexivity|]. split.
+    + rewrite !app_length, ale_bytes_length. lia.
+    + apply abytes_ok_app. split; [|assumption]. apply abytes_ok_app. split; [apply ale_bytes_ok|assumption].
+Qed.
+
+(* every written header is the exact encoding of the headers it stands for, which are well-formed *)
+Lemma aw_header_correct o fc h : aw_ok o fc h ->
+  aw_bytes h = concat (map aencode_header (aw_headers h))
+  /\ Forall (awf_header o fc) (aw_headers h)
+  /\ abytes_ok (aw_bytes h).
+Proof.
+  destruct h as [g v|g v a b|g v a b|g v c|g v c|c1 c2 c3 c0|g v psize items|g v obj|]; cbn [aw_ok aw_headers aw_bytes].
+  - intros [Hg [Hv [Hl Hk]]]. split; [reflexivity|]. split; [|abytes; reflexivity].
+    repeat constructor; cbn; auto.
+  - intros [Hg [Hv [Hl [Hab [Hb Hr]]]]]. split; [unfold aencode_header, amk; cbn; rewrite ?app_nil_r; reflexivity|].
+    split; [|abytes; reflexivity]. repeat constructor; cbn; auto.
+  - intros [Hg [Hv [Hl [Hab [Hb Hr]]]]]. split; [unfold aencode_header, amk; cbn; rewrite ?app_nil_r; reflexivity|].
+    split; [|abytes; reflexivity]. repeat constructor; cbn; auto.
+  - intros [Hg [Hv [Hl [Hc Hr]]]]. split; [unfold aencode_header, amk; cbn; reflexivity|].
+    split; [|abytes; reflexivity]. repeat constructor; cbn; auto.
+  - intros [Hg [Hv [Hl [Hc Hr]]]]. split; [unfold aencode_header, amk; cbn; reflexivity|].
+    split; [|abytes; reflexivity]. repeat constructor; cbn; auto.
+  - intros _. split; [destruct c1, c2, c3, c0; reflexivity|]. split.
+    + assert (H60 : forall v, v = 1 \/ v = 2 \/ v = 3 \/ v = 4 -> awf_header o fc (amk 60 v HAll PyNone)).
+      { intros v [E|[E|[E|E]]]; subst v; (split; [vm_compute; reflexivity|split; [vm_compute; discriminate|reflexivity]]). }
+      repeat apply Forall_app; split; try (destruct c1 || destruct c2 || destruct c3 || destruct c0);
+        repeat constructor; try (apply H60; auto).
+      all: try (destruct c2; repeat constructor; try (apply H60; auto)).
+      all: try (destruct c3; repeat constructor; try (apply H60; auto)).
+      all: try (destruct c0; repeat constructor; try (apply H60; auto)).
+    + unfold aw_class. destruct c1, c2, c3, c0; cbn; abytes; reflexivity.
+  - intros [Hg [Hv [Hl [Hps [Hn [Hk [fi [Hf HF]]]]]]]].
+    destruct (aw_items_data g v psize fi items Hf Hps HF) as [E1 [E2 E3]].
+    assert (Hcnt : N.of_nat (length items) < 256 ^ psize) by (unfold aw_max_count in Hn; destruct Hps; subst psize; cbn in *; lia).
+    split; [|split].
+    + rewrite E1. unfold aencode_header, amk. cbn [map concat oh_g oh_v oh_details oh_payload apayload_bytes].
+      rewrite app_nil_r. destruct Hps as [E|E]; subst psize; cbn [N.eqb Pos.eqb aqualifier adetail_bytes].
+      * rewrite ale_bytes_1 by (cbn in Hcnt; lia). reflexivity.
+      * reflexivity.
+    + constructor; [|constructor]. unfold awf_header, amk. cbn [oh_g oh_v oh_details oh_payload].
+      split; [assumption|].
+      assert (Hw : aprefixed_wf o g v psize (N.of_nat (length items))
+                     (PyFixedPrefix psize (N.of_nat (length items))
+                        (concat (map (fun it => ale_bytes (N.to_nat psize) (fst it) ++ snd it) items)))).
+      { unfold aprefixed_wf. rewrite Hk. exists (fi_size fi). eexists. unfold asize. rewrite Hf. auto. }
+      destruct Hps as [E|E]; subst psize; cbn [N.eqb Pos.eqb]; (split; [cbn in Hcnt; lia|exact Hw]).
+    + apply Forall_cons; [assumption|]. apply Forall_cons; [assumption|].
+      apply Forall_cons; [destruct Hps; subst psize; cbn; lia|].
+      apply abytes_ok_app. split; [apply ale_bytes_ok|]. rewrite E1. exact E3.
+  - intros [Hg [Hv [Hl [Hk [fi [Hf [Hb Hlen]]]]]]]. rewrite (arewrite_id g v fi obj Hf Hb Hlen).
+    split; [unfold aencode_header, amk; cbn; rewrite app_nil_r; reflexivity|]. split.
+    + constructor; [|constructor]. unfold awf_header, amk. cbn [oh_g oh_v oh_details oh_payload].
+      split; [assumption|]. split; [lia|]. unfold acount_wf. rewrite Hk. exists (fi_size fi), obj.
+      unfold asize. rewrite Hf. repeat split; lia.
+    + apply Forall_cons; [assumption|]. apply Forall_cons; [assumption|]. apply Forall_cons; [cbn; lia|].
+      apply Forall_cons; [lia|assumption].
+  - intro Hfc. split; [reflexivity|]. split; [|abytes; reflexivity].
+    constructor; [|constructor]. unfold awf_header, amk. cbn [oh_g oh_v oh_details oh_payload].
+    split; [vm_compute; reflexivity|]. split; [lia|]. split; [lia|]. unfold aranged_wf. rewrite Hfc.
+    replace (aqkind qt_range 80 1) with (Some DBits) by (vm_compute; reflexivity).
+    exists [0]. split; [reflexivity|vm_compute; reflexivity].
+Qed.
+
+Lemma aw_requests_correct o fc hs : Forall (aw_ok o fc) hs ->
+  concat (map aw_bytes hs) = concat (map aencode_header (concat (map aw_headers hs)))
+  /\ Forall (awf_header o fc) (concat (map aw_headers hs))
+  /\ abytes_ok (concat (map aw_bytes hs)).
+Proof.
+  intro HF. induction HF as [|h hs Hh HF IH]; cbn [map concat].
+  - repeat split; constructor.
+  - destruct IH as [E1 [E2 E3]]. destruct (aw_header_correct o fc h Hh) as [H1 [H2 H3]].
+    rewrite map_app, concat_app, <- H1, <- E1. split; [reflexivity|]. split.
+    + apply Forall_app. split; assumption.
+    + apply abytes_ok_app. split; assumption.
+Qed.
+
+Lemma actl_request_round_trip seq : seq < 16 -> actl_of (actl_to (actl_request seq)) = actl_request seq.
+Proof.
+  intro H.
+  assert (Hs : seq = 0 \/ seq = 1 \/ seq = 2 \/ seq = 3 \/ seq = 4 \/ seq = 5 \/ seq = 6 \/ seq = 7 \/ seq = 8
+               \/ seq = 9 \/ seq = 10 \/ seq = 11 \/ seq = 12 \/ seq = 13 \/ seq = 14 \/ seq = 15) by lia.
+  repeat (destruct Hs as [Hs|Hs]; [subst seq; reflexivity|]). subst seq. reflexivity.
+Qed.
+
+Lemma awrite_request_bytes cap seq fc hs bytes : awrite_request cap seq fc hs = AOk bytes ->
+  bytes = actl_to (actl_request seq) :: fc :: concat (map aw_bytes hs).
+Proof.
+  unfold awrite_request. destruct (awfits cap _); [discriminate|]. destruct (aw_run (cap - 2) hs); [discriminate|].
+  intro H. inversion H. reflexivity.
+Qed.
+
+(* P1 encode_parse_round_trip (requests): whenever the master's builders succeed in writing a request of
+   class / all-objects headers, 8- and 16-bit ranges, limited counts, a count-of-one object, the
+   clear-restart write and prefixed items (8- or 16-bit prefix, count patched afterwards) whose headers
+   satisfy the side conditions aw_ok, the library's parser decodes the bytes to the same control field,
+   function code, object headers, indices and object bytes, as a valid request, with every byte consumed *)
+Theorem encode_parse_round_trip : forall o cap seq fc hs bytes,
+  seq < 16 -> fc < 256 -> afunction_known fc = true -> afunction_has_iin fc = false ->
+  Forall (aw_ok o fc) hs -> awrite_request cap seq fc hs = AOk bytes ->
+  exists pf, parse_fragment o bytes = AOk pf
+    /\ pf_header pf = {| ah_control := actl_request seq; ah_function := fc; ah_iin := None |}
+    /\ ato_request (pf_header pf) = None
+    /\ headers_of pf = AOk (concat (map aw_headers hs))
+    /\ pf_raw_objects pf = concat (map aencode_header (concat (map aw_headers hs))).
+Proof.
+  intros o cap seq fc hs bytes Hseq Hfc Hk Hi HF Hw. apply awrite_request_bytes in Hw. subst bytes.
+  destruct (aw_requests_correct o fc hs HF) as [E1 [E2 E3]].
+  unfold parse_fragment, aparse_header. rewrite Hk, Hi. rewrite (actl_request_round_trip seq Hseq).
+  eexists. split; [reflexivity|]. cbn [pf_header pf_objects pf_raw_objects ah_function].
+  split; [reflexivity|]. split.
+  - unfold ato_request. cbn [ah_iin ah_control actl_request ac_fir ac_fin ac_uns]. reflexivity.
+  - destruct (proj2 (accept_iff_exact_bytes_fragment o fc (concat (map aw_bytes hs)) (concat (map aw_headers hs)) E3)
+                (conj E1 E2)) as [c [Hv Hit]].
+    split; [|exact E1]. unfold headers_of. cbn [pf_objects]. rewrite Hv. rewrite Hit. reflexivity.
+Qed.
